@@ -46,9 +46,17 @@ Proof. exact round_fits. Qed.
 Print Assumptions C15_batch_fits.
 
 Theorem C15_batch_total : forall st mtu,
-  wf_state st -> (0 <= mtu)%Z -> round st mtu <> ROutOfFuel /\ round st mtu <> RFail.
+  wf_state st -> (0 <= mtu)%Z -> round st mtu <> ROutOfFuel.
 Proof. exact round_total. Qed.
 Print Assumptions C15_batch_total.
+
+(* the one way a round fails: a pending key does not fit even an empty message of that size (outside the usable MTU
+   range); the device then reports an error instead of dropping the entry *)
+Theorem C15_fails_only_on_unsendable_key : forall st mtu,
+  wf_state st -> (0 <= mtu)%Z -> round st mtu = RFail ->
+  exists st1 st2 c, wf_state st1 /\ read_chunk st1 mtu = (CTooSmall, st2) /\ cs_cur st2 = Some c.
+Proof. exact round_fails_only_on_unsendable_key. Qed.
+Print Assumptions C15_fails_only_on_unsendable_key.
 
 (* a forced message break (yield) ends the current DeviceServiceInfo with IsMoreServiceInfo set once the message holds an
    entry; at the very start of a message there is nothing to separate and the round goes on as if it were not there
